@@ -174,13 +174,14 @@ def run_shard(tier: str, seed: int, shard):
     name, part = shard
     acc = Acc(ID)
     pair, trip, phased = grids(tier, seed)
+    case = {"norm": name, "a": 0.5, "b": 0.5}
     if part == "dyadic":
-        check_pairs(acc, name, pair, True, "dyadic")
+        acc.guard(case, check_pairs, acc, name, pair, True, "dyadic")
         acc.sample({"norm": name, "a": pair[3], "b": pair[5], "value": float(impl_of(name).compute(pair[3], pair[5]))})
     elif part == "phased":
-        check_pairs(acc, name, phased, False, "phased")
+        acc.guard(case, check_pairs, acc, name, phased, False, "phased")
     else:
-        check_triples(acc, name, trip)
+        acc.guard({**case, "c": 0.5}, check_triples, acc, name, trip)
     return acc.result()
 
 
